@@ -62,10 +62,11 @@ PLAN = {
     "C03": {"quick": [e3(8000)], "thorough": [e3(80000)]},
     "C08": {"quick": [e3(8000)], "thorough": [e3(80000)]},
     "C09": {"quick": [e3(8000)], "thorough": [e3(80000)]},
-    "C10": {"quick": [e3(8000)], "thorough": [e3(80000)]},
+    "C10": {"quick": [e3(8000), e3(800, templates=["syncfan"])], "thorough": [e3(80000), e3(8000, templates=["syncfan"])]},
     "C11": {"quick": [e1(16000, kinds=BUF_KINDS, probe=0.12), e3(800)],
             "thorough": [e1(200000, kinds=BUF_KINDS, probe=0.12), e3(8000)]},
-    "C15": {"quick": [e3(8000)], "thorough": [e3(80000)]},
+    # syncfan: saturated chooser, one-place out-buffers, commensurate consumers (several out-edges free up in one instant)
+    "C15": {"quick": [e3(8000), e3(1600, templates=["syncfan"])], "thorough": [e3(80000), e3(16000, templates=["syncfan"])]},
     "C16": {"quick": [e3(8000, templates=["pack", "packunpack", "packpack"])], "thorough": [e3(80000, templates=["pack", "packunpack", "packpack"])]},
     "C17": {"quick": [e3(8000)], "thorough": [e3(80000)]},
     "C18": {"quick": [e3(8000), e1(8000)], "thorough": [e3(80000), e1(80000)]},
